@@ -12,6 +12,7 @@ import (
 
 	"github.com/drand/drand/v2/common/key"
 	"github.com/drand/drand/v2/internal/dkg"
+	"github.com/drand/drand/v2/zzverif/emit"
 	pdkg "github.com/drand/drand/v2/protobuf/dkg"
 	"github.com/drand/kyber/share"
 	kdkg "github.com/drand/kyber/share/dkg"
@@ -33,6 +34,7 @@ type hist struct {
 	seed  []byte
 	prevG *key.Group
 	notes []string
+	extra []emit.MonitorFailure
 	kyber bool
 }
 
